@@ -167,11 +167,14 @@ class Sim:
             return {"$err": type(e).__name__}
         return "$unknown"
 
-    def rule(self, cbid, tag, epoch, j, loc=None):
+    def rule(self, cbid, tag, epoch, j, loc=None, dp=0):
         rules = self.beh.get(cbid)
         if not rules:
             return None
         for r in rules:
+            d_ = r.get("dp")
+            if d_ is not None and d_ != dp:
+                continue
             e = r.get("ep")
             if e is not None and e != epoch:
                 continue
@@ -216,7 +219,9 @@ class Sim:
     def _begin(self, cbid, obj, loc, grp):
         tag = self.tag_of(obj)
         epoch = self.epoch
-        key = (tag, cbid, epoch)
+        stack = getattr(self.tl, "stack", None)
+        dp = len(stack) if stack else 0
+        key = (tag, cbid, epoch, dp)
         j = self.jc.get(key, 0)
         self.jc[key] = j + 1
         bound = {}
@@ -234,13 +239,12 @@ class Sim:
             vt = asyncio.get_running_loop().time()
         except RuntimeError:
             vt = None
-        stack = getattr(self.tl, "stack", None)
         parent = stack[-1] if stack else None
         th = self.threads.current() if self.threads is not None else None
-        q = self.rec(k="cb+", i=tag, c=cbid, g=grp, e=epoch, j=j, b=bound, sv=sv, d=d, p=parent,
+        q = self.rec(k="cb+", i=tag, c=cbid, g=grp, e=epoch, j=j, dp=dp, b=bound, sv=sv, d=d, p=parent,
                      t=vt, th=th, s=self.sender_id())
         self.stats["cb"] += 1
-        return tag, epoch, j, q, sv
+        return tag, epoch, j, q, sv, dp
 
     def sender_id(self):
         s = getattr(self.tl, "sender", None)
@@ -254,9 +258,9 @@ class Sim:
             return getattr(t, "_sim_sender", None)
         return None
 
-    def _make_exc(self, name, cbid, tag, epoch, j):
-        e = EXC_CLASSES[name](f"injected {name} at {cbid} ep={epoch} j={j}")
-        e.sim_id = [cbid, tag, epoch, j]
+    def _make_exc(self, name, cbid, tag, epoch, j, dp=0):
+        e = EXC_CLASSES[name](f"injected {name} at {cbid} ep={epoch} depth={dp} j={j}")
+        e.sim_id = [cbid, tag, epoch, dp, j]
         return e
 
     def _describe_exc(self, e):
@@ -279,19 +283,20 @@ class Sim:
 
     # ------------------------------------------------------------------ synchronous callbacks
     def cb(self, cbid, obj, loc, grp=None):
-        tag, epoch, j, q, sv = self._begin(cbid, obj, loc, grp)
+        tag, epoch, j, q, sv, dp = self._begin(cbid, obj, loc, grp)
         stack = getattr(self.tl, "stack", None)
         if stack is None:
             stack = self.tl.stack = []
         stack.append(q)
         try:
-            rule = self.rule(cbid, tag, epoch, j, loc)
+            rule = self.rule(cbid, tag, epoch, j, loc, dp)
             if self.threads is not None:
                 self.threads.yield_point("cb")
             ret = None
             if rule is not None:
                 sends = rule.get("sends")
-                if sends and (rule.get("sends_jlt") is None or j < rule["sends_jlt"]):
+                if (sends and (rule.get("sends_jlt") is None or j < rule["sends_jlt"])
+                        and (rule.get("sends_dplt") is None or dp < rule["sends_dplt"])):
                     sm = self._machine(tag, obj, loc)
                     for s in sends:
                         self._send_sync(sm, s, q, tag, loc)
@@ -299,8 +304,8 @@ class Sim:
                 if rz:
                     self.stats["raises"] += 1
                     self.failed.add((tag, epoch))
-                    raise self._make_exc(rz, cbid, tag, epoch, j)
-                ret = dec(rule.get("ret"))
+                    raise self._make_exc(rz, cbid, tag, epoch, j, dp)
+                ret = self._ret(rule, cbid, epoch, j, dp)
             if grp in GUARD_GROUPS:
                 ret = self.guard_value(cbid, epoch, sv)
             self.rec(k="cb-", r=q, c=cbid, out=["ret", enc(ret)])
@@ -337,9 +342,9 @@ class Sim:
 
     # ------------------------------------------------------------------ coroutine callbacks
     async def acb(self, cbid, obj, loc, grp=None):
-        tag, epoch, j, q, sv = self._begin(cbid, obj, loc, grp)
+        tag, epoch, j, q, sv, dp = self._begin(cbid, obj, loc, grp)
         try:
-            rule = self.rule(cbid, tag, epoch, j, loc)
+            rule = self.rule(cbid, tag, epoch, j, loc, dp)
             ret = None
             if rule is not None:
                 pre = rule.get("pre")
@@ -361,13 +366,13 @@ class Sim:
                 if rz:
                     self.stats["raises"] += 1
                     self.failed.add((tag, epoch))
-                    raise self._make_exc(rz, cbid, tag, epoch, j)
+                    raise self._make_exc(rz, cbid, tag, epoch, j, dp)
                 post = rule.get("post")
                 if post is not None:
                     self.stats["delays"] += 1
                     self.stats["vdelay"] += post
                     await asyncio.sleep(post)
-                ret = dec(rule.get("ret"))
+                ret = self._ret(rule, cbid, epoch, j, dp)
             if grp in GUARD_GROUPS:
                 ret = self.guard_value(cbid, epoch, sv)
             self.rec(k="cb-", r=q, c=cbid, out=["ret", enc(ret)])
@@ -375,6 +380,12 @@ class Sim:
         except BaseException as e:
             self.rec(k="cb-", r=q, c=cbid, out=["exc", self._describe_exc(e)])
             raise
+
+    def _ret(self, rule, cbid, epoch, j, dp=0):
+        r = rule.get("ret")
+        if isinstance(r, dict) and "$uniq" in r:
+            return f"u:{cbid}:{epoch}:{dp}:{j}"
+        return dec(r)
 
     async def _send_async(self, sm, s, q, tag, loc):
         ev, args, kw = self._fill(s, loc)
